@@ -537,10 +537,9 @@ pub fn build(setup: &Setup) -> Result<Sut, Fail> {
 
 pub fn build_with_cal(setup: &Setup, pycal: Option<CalType>) -> Result<Sut, Fail> {
     let herr = |s: &str| Fail::Harness(HarnessError(s.to_string()));
-    if setup.nodes.len() < 2 {
-        return Err(herr("curve plan needs at least two nodes"));
-    }
-    let kind = match (&setup.ctor, uniform_kind(&setup.nodes)) {
+    // (curves of one node or none are legal objects - the constructors accept them - though
+    // they cannot be looked up; only the save/load scenario builds them)
+    let kind = match (&setup.ctor, if setup.nodes.is_empty() { Some(0) } else { uniform_kind(&setup.nodes) }) {
         (_, Some(k)) => k,
         (Ctor::Py { .. }, None) => 3,
         (Ctor::Df, None) => return Err(herr("mixed node kinds in a CurveDF plan")),
@@ -1340,6 +1339,9 @@ fn execute_null(plan: &Plan, obs: &mut Obs) -> Result<(), Fail> {
 }
 
 pub fn execute(plan: &Plan, obs: &mut Obs) -> Result<(), Fail> {
+    if plan.setup.nodes.len() < 2 {
+        return Err(HarnessError("curve plan needs at least two nodes".into()).into());
+    }
     if plan.setup.interp == "null" {
         return execute_null(plan, obs);
     }
